@@ -33,4 +33,23 @@ def replay(model, obligation):
     p._set_keyspace_for_all_conns('ks', lambda pool, errs: got.append(errs))
     if len(got) != 1 or p._keyspace != 'ks':
         fails.append('pool without a connection: completion callback ran %d time(s), remembered keyspace %r' % (len(got), p._keyspace))
+    # legacy pool: the USE fails on the connection that reports last
+    from cassandra.pool import HostConnectionPool
+    lp = HostConnectionPool.__new__(HostConnectionPool)
+    asked = []
+
+    class C(object):
+        def __init__(self, name):
+            self.name = name
+
+        def set_keyspace_async(self, ks, cb):
+            asked.append((self, cb))
+    lp._connections, lp._keyspace = [C('c0'), C('c1')], 'old'
+    lp.return_connection = lambda conn, **k: None
+    seen = []
+    lp._set_keyspace_for_all_conns('ks', lambda pool, errs: seen.append(list(errs)))
+    asked[0][1](asked[0][0], None)
+    asked[1][1](asked[1][0], Exception('USE failed on c1'))
+    if len(seen) != 1 or len(seen[0]) != 1:
+        fails.append('legacy pool, USE fails on the connection that reports last: the completion callback was given %r at the time of the call' % (seen,))
     return {'reproduced': bool(fails), 'detail': '; '.join(fails[:3]) or 'no disagreement'}
